@@ -6,7 +6,7 @@
    rearrangements (Permutation (sh l) l), so every statement holds for every iteration order. *)
 From Coq Require Import Permutation.
 From Verif Require Import Lib.Bytes StateRes.Event StateRes.Kahn StateRes.V2 StateRes.V1 StateRes.Entry
-     StateRes.SortProofs StateRes.KahnProofs StateRes.OrderProofs StateRes.ResultProofs StateRes.CmpProofs StateRes.KahnSetProofs StateRes.OrderSetProofs.
+     StateRes.SortProofs StateRes.KahnProofs StateRes.OrderProofs StateRes.ResultProofs StateRes.CmpProofs StateRes.KahnSetProofs StateRes.OrderSetProofs StateRes.V2Spec StateRes.SplitProofs StateRes.AgreedProofs StateRes.SubsetProofs.
 
 (* slices.SortStableFunc by a total order whose ties are identities: the result depends only on
    the set of elements, not on the order they were in (map iteration order, input order) *)
@@ -102,6 +102,54 @@ Section Results.
   Proof. apply unconflicted_event_kept. Qed.
 End Results.
 
+
+(* ---------- results against the state sets (v2 / v2.1, current entry point) ---------- *)
+Section AgainstInputs.
+  Variable allowed : event -> list event -> bool.
+  Variable rejected : bytes -> bool.
+  Variable shE : list event -> list event.
+  Variable shP : list pwrap -> list pwrap.
+  Variable shG : groups -> groups.
+  Hypothesis shE_perm : forall l, Permutation (shE l) l.
+  Hypothesis shP_perm : forall l, Permutation (shP l) l.
+  Hypothesis shG_perm : forall l, Permutation (shG l) l.
+  Variable priv : bool.
+  Variable cl ud : Z.
+
+  Notation resolve := (resolve_v2_new allowed rejected shE shP shG priv cl ud).
+
+  (* only supplied events: no assumption on the input at all *)
+  Theorem result_subset_of_inputs v21 sets auth_events x :
+    In x (result_events (resolve v21 sets auth_events)) -> In x (concat sets) \/ In x auth_events.
+  Proof. apply result_subset_of_inputs_v2; assumption. Qed.
+
+  (* a key on which all state sets agree keeps exactly that event *)
+  Theorem agreed_keys_kept v21 sets auth_events e :
+    (forall s, In s sets -> NoDup (ids_of s)) -> ids_identify (concat sets) ->
+    In e (concat sets) -> spec_unconflicted sets e ->
+    In e (result_events (resolve v21 sets auth_events)).
+  Proof. intros. apply agreed_keys_kept_v2; assumption. Qed.
+
+  (* state sets that all hold the same events (each a map): every one of these events is in the
+     result. (The converse inclusion - nothing else is - is checked by the oracle only.) *)
+  Theorem equal_sets_fixed_point_partial v21 sets auth_events e :
+    (forall s, In s sets -> NoDup (ids_of s)) -> ids_identify (concat sets) ->
+    (forall s a b, In s sets -> In a s -> In b s -> event_tkey a = event_tkey b -> e_id a = e_id b) ->
+    (forall s1 s2 x, In s1 sets -> In s2 sets -> In x s1 -> present_in x s2) ->
+    In e (concat sets) -> e_skey e <> None ->
+    In e (result_events (resolve v21 sets auth_events)).
+  Proof.
+    intros ND Hid Hmap Heq Hin Hsk. apply agreed_keys_kept; auto.
+    pose proof Hin as Hin'. apply in_concat in Hin' as [s0 [Hs0 He0]].
+    split; [exact Hsk|]. split.
+    - intros s Hs. apply (Heq s0 s e Hs0 Hs He0).
+    - intros s e' Hs He' Ek. destruct (Heq s0 s e Hs0 Hs He0) as [e'' [He'' Eid]].
+      assert (e'' = e).
+      { apply Hid; [apply in_concat; exists s; auto|exact Hin|exact Eid]. }
+      subst e''. unfold same_id. apply (Hmap s e' e Hs He' He''). exact Ek.
+  Qed.
+End AgainstInputs.
+
 (* the tie-break keys are total orders whose ties are the same event ID, so the sorts (and the
    pops of the Kahn queue) do not depend on the order the items arrive in *)
 Theorem power_sort_canonical (l l' : list pwrap) :
@@ -196,3 +244,6 @@ Print Assumptions kahn_depends_on_set_only.
 Print Assumptions reverse_topological_ordering_order_independent.
 Print Assumptions power_order_order_independent.
 Print Assumptions mainline_order_order_independent.
+Print Assumptions result_subset_of_inputs.
+Print Assumptions agreed_keys_kept.
+Print Assumptions equal_sets_fixed_point_partial.
